@@ -76,7 +76,13 @@ func c09checkScans(ck *vCheck, desc string, tb *Tables, rules []lgRule, nsc int,
 	for sc := 0; sc < nsc && sc < len(tb.StateMap); sc++ {
 		for _, text := range lgTexts(universe, maxText) {
 			wantSize, wantAct := lgScan(rules, sc, text, m, universe)
-			src, offs := lgEncode(text, m)
+			// in rune mode the invalid symbol is scanned in two spellings: 0xff and a stray continuation byte
+			invs := []byte{0xff}
+			if !m.bytes && lgHas(text, utf8.RuneError) {
+				invs = append(invs, 0x80)
+			}
+			for _, inv := range invs {
+			src, offs := lgEncodeInv(text, m, inv)
 			var size, act int
 			if p := vRecover(func() { size, act = tb.Scan(sc, src) }); p != "" {
 				ck.Failf(desc, "Scan(%d, %q) panicked: %s", sc, src, p)
@@ -122,6 +128,7 @@ func c09checkScans(ck *vCheck, desc string, tb *Tables, rules []lgRule, nsc int,
 			if act != 0 || size != offs[viable] {
 				ck.Failf(desc, "Scan(%d, %q) = (%d, action %d), want an invalid token (action 0) spanning the longest viable prefix of %d bytes", sc, src, size, act, offs[viable])
 				return
+			}
 			}
 		}
 	}
